@@ -53,6 +53,26 @@ FUNCS = [
     ("C03", "dataiter/data_frame.py", "DataFrame.sort.sort_key", ["dir"], "DataFrame_sort_key"),
     ("C20", "dataiter/util.py", "ulen", ["wcwidth.wcswidth(string)"], "util_ulen"),
     ("C08", "dataiter/aggregate.py", "use_numba", [], "aggregate_use_numba"),
+    ("C17", "dataiter/list_of_dicts.py", "ListOfDicts.__init__", [], "ListOfDicts_init"),
+    ("C17", "dataiter/list_of_dicts.py", "ListOfDicts._new", [], "ListOfDicts_new"),
+    ("C17", "dataiter/list_of_dicts.py", "ListOfDicts.__deepcopy__", [], "ListOfDicts_deepcopy"),
+    ("C17", "dataiter/list_of_dicts.py", "ListOfDicts.__copy__", [], "ListOfDicts_copy"),
+    ("C17", "dataiter/list_of_dicts.py", "ListOfDicts._mark_obsolete", [], "ListOfDicts_mark_obsolete"),
+    ("C17", "dataiter/list_of_dicts.py", "ListOfDicts.__getattribute__", [], "ListOfDicts_getattribute"),
+    ("C17", "dataiter/deco.py", "obsoletes.wrapper", [], "deco_obsoletes_wrapper"),
+    ("C17", "dataiter/deco.py", "new_from_generator.wrapper", [], "deco_new_from_generator_wrapper"),
+    ("C04", "dataiter/data_frame.py", "DataFrame.count", [], "DataFrame_count"),
+    ("C04", "dataiter/data_frame.py", "DataFrame.group_by", [], "DataFrame_group_by"),
+    ("C10", "dataiter/vector.py", "Vector.is_na", [], "Vector_is_na"),
+    ("C10", "dataiter/vector.py", "Vector.drop_na", [], "Vector_drop_na"),
+    ("C10", "dataiter/vector.py", "Vector.tolist", [], "Vector_tolist"),
+    ("C10", "dataiter/vector.py", "Vector.equal", ["self.length", "other.length"], "Vector_equal"),
+    ("C01", "dataiter/data_frame.py", "DataFrame.__delitem__", [], "DataFrame_delitem"),
+    ("C01", "dataiter/data_frame.py", "DataFrame.pop", [], "DataFrame_pop"),
+    ("C01", "dataiter/data_frame.py", "DataFrame.__delattr__", [], "DataFrame_delattr"),
+    ("C01", "dataiter/data_frame.py", "DataFrame.__getattr__", [], "DataFrame_getattr"),
+    ("C01", "dataiter/data_frame.py", "DataFrame.__getattribute__", [], "DataFrame_getattribute"),
+    ("C12", "dataiter/util.py", "xopen", [], "util_xopen"),
 ]
 
 
@@ -97,6 +117,7 @@ class Translator:
             self.args.append(fn.args.kwarg.arg)
         self.params = []          # (lean name, lean type) in order of first use
         self.pnames = {}
+        self.assigned = set()     # (object text, attribute) assigned so far on the current path
 
     # ---- parameters -----------------------------------------------------------------------
     def param(self, text, ty):
@@ -202,6 +223,8 @@ class Translator:
                 s = self.term(e.slice, env)
             return f"(Term.app \"getitem\" [{v}, {s}])"
         if isinstance(e, ast.Attribute):
+            if (ast.unparse(e.value), e.attr) in self.assigned:
+                raise Unsupported("attribute read after it was assigned in the same function: " + ast.unparse(e))
             if self.root_is_local(e.value, env):
                 return f"(Term.app {lean_str('.' + e.attr)} [{self.term(e.value, env)}])"
             return f"(Term.sym {lean_str(ast.unparse(e))})"
@@ -274,6 +297,17 @@ class Translator:
             v = f"eff{len(effs)}"
             t = self.term(s.value, env)
             return f"{ind}let {v} : Term := {t};\n" + self.block(rest, env, effs + [v], depth)
+        if isinstance(s, ast.Assign) and len(s.targets) == 1 and isinstance(s.targets[0], ast.Attribute) \
+                and self.root_is_local(s.targets[0].value, env):
+            # `obj.attr = value`: an effect (the object is not modelled); reading that attribute of the same
+            # object later in the same function would need a store, so it is rejected (see `term`)
+            tgt = s.targets[0]
+            v = f"eff{len(effs)}"
+            recv = self.term(tgt.value, env)
+            val = self.term(s.value, env)
+            self.assigned.add((ast.unparse(tgt.value), tgt.attr))
+            return (f"{ind}let {v} : Term := (Term.app \"setattr\" [{recv}, (Term.sym {lean_str(tgt.attr)}), {val}]);\n"
+                    + self.block(rest, env, effs + [v], depth))
         if isinstance(s, ast.Assign):
             if len(s.targets) != 1 or not isinstance(s.targets[0], ast.Name):
                 raise Unsupported("assignment target: " + ast.unparse(s))
